@@ -120,6 +120,13 @@ def build_files(case, seed):
         if len(keys) > 2:
             k2 = keys[2]
             files[k2] = files[k2].replace("  !! ", "\t!! caf\u00e9 \u2192 na\u00efve ").rstrip("\n")
+    if case.get("odd_shapes"):
+        base = "p/src/" if lay == "normal" else "p/"
+        for nm in ("part01", "part1", "part001"):
+            files[base + nm + ".f90"] = ("module %s_mod\n  !! module in %s\n  implicit none\ncontains\n  subroutine setup()\n    !! setup of %s\n"
+                                         "  end subroutine setup\nend module %s_mod\n" % (nm, nm, nm, nm))
+        long = "implicit_runge_kutta_time_integration_kernels_for_stiff_systems_of_equations_v2"
+        files[base + long + ".f90"] = "module longname_mod\n  !! a module in a file with a very long name\nend module longname_mod\n"
     if case.get("many_files"):
         base = "p/src/" if lay == "normal" else "p/"
         for q in range(14):
